@@ -99,6 +99,9 @@ Inductive prim : st → st → Prop :=
 | p_unwatch s name fd w k1 :
     tb_byPath (T s) name = Some (fd, w) → sys_evdelete (K s) fd = Some k1 →
     prim s (set_T (fun _ => fst (tb_remove (T s) fd name)) (set_K (fun _ => sys_close k1 fd) s))
+| p_unlist s name fd w :                            (* remove when EV_DELETE fails: the descriptor is closed and unlisted all the same *)
+    tb_byPath (T s) name = Some (fd, w) → sys_evdelete (K s) fd = None →
+    prim s (set_T (fun _ => fst (tb_remove (T s) fd name)) (set_K (fun k => sys_close k fd) s))
 | p_kern s k' :                                     (* filesystem change, notes raised, records retrieved *)
     k_led k' = k_led (K s) → k_regs k' = k_regs (K s) → k_next k' = k_next (K s) → prim s (set_K (fun _ => k') s)
 | p_exit s : prim s (reader_exit s).
@@ -228,8 +231,11 @@ Proof.
   induction fuel as [|fuel IH]; intros s name uw; [apply steps_refl|].
   cbn [remove_core].
   destruct (tb_byPath (T s) (clean name)) as [[fd w]|] eqn:Eb; [|apply steps_refl].
-  destruct (sys_evdelete (K s) fd) as [k1|] eqn:Ee; [|apply steps_refl].
-  pose proof (p_unwatch s (clean name) fd w k1 Eb Ee) as Hq.
+  destruct (evdelete_err (K s) fd) as [k1 res] eqn:Ee.
+  assert (Hq : prim s (set_T (λ _ : tables, (tb_remove (T s) fd (clean name)).1) (set_K (λ _ : kernel, sys_close k1 fd) s))).
+  { unfold evdelete_err in Ee. destruct (sys_evdelete (K s) fd) as [k0|] eqn:Ed; injection Ee as <- _.
+    - exact (p_unwatch s (clean name) fd w k0 Eb Ed).
+    - exact (p_unlist s (clean name) fd w Eb Ed). }
   destruct (tb_remove (T s) fd (clean name)) as [t1 isd] eqn:Et. cbn [fst] in Hq.
   assert (Hp : steps s (set_T (λ _ : tables, t1) (set_K (λ _ : kernel, sys_close k1 fd) s))) by (apply steps_one, Hq).
   destruct (uw && isd); [|exact Hp].
@@ -524,13 +530,14 @@ Proof.
     + rewrite lookup_insert_ne by done. apply inv_bucket0.
 Qed.
 
-Lemma prim_unwatch s name fd w k1 : KqInv s →
-  tb_byPath (T s) name = Some (fd, w) → sys_evdelete (K s) fd = Some k1 →
-  KqInv (set_T (λ _, (tb_remove (T s) fd name).1) (set_K (λ _, sys_close k1 fd) s)).
+(* a watch is unlisted and the kernel forgets its descriptor and its registration (whether or not there was one) *)
+Lemma unwatch_inv s name fd w k' : KqInv s →
+  tb_byPath (T s) name = Some (fd, w) →
+  k_led k' = delete fd (k_led (K s)) → k_regs k' = delete fd (k_regs (K s)) → k_next k' = k_next (K s) →
+  KqInv (set_T (λ _, (tb_remove (T s) fd name).1) (set_K (λ _, k') s)).
 Proof.
-  intros I Hb He. destruct (byPath_some _ _ _ _ I Hb) as (Hp & Hw & Hn & Hz).
-  unfold sys_evdelete in He. destruct (k_regs (K s) !! fd) eqn:Er; [|discriminate]. injection He as <-.
-  destruct I. constructor; simpl; auto.
+  intros I Hb Hkl Hkr Hkn. destruct (byPath_some _ _ _ _ I Hb) as (Hp & Hw & Hn & Hz).
+  destruct I. constructor; simpl; rewrite ?Hkl, ?Hkr, ?Hkn; auto.
   - intros fd'. destruct (decide (fd = fd')) as [<-|Hd]; [rewrite !lookup_delete; split; intros [? ?]; discriminate|rewrite !lookup_delete_ne by done; auto].
   - intros G fd'. destruct (decide (fd = fd')) as [<-|Hd]; [rewrite !lookup_delete; split; intros [? ?]; discriminate|rewrite !lookup_delete_ne by done; auto].
   - intros fd' w'. destruct (decide (fd = fd')) as [<-|Hd]; [rewrite lookup_delete; discriminate|].
@@ -576,6 +583,21 @@ Proof.
     + destruct (decide (dir name = d)) as [<-|Hd]; [rewrite lookup_insert; intros [= <-]; done|rewrite lookup_insert_ne by done; apply inv_bucket0].
 Qed.
 
+Lemma prim_unwatch s name fd w k1 : KqInv s →
+  tb_byPath (T s) name = Some (fd, w) → sys_evdelete (K s) fd = Some k1 →
+  KqInv (set_T (λ _, (tb_remove (T s) fd name).1) (set_K (λ _, sys_close k1 fd) s)).
+Proof.
+  intros I Hb He.
+  unfold sys_evdelete in He. destruct (k_regs (K s) !! fd) eqn:Er; [|discriminate]. injection He as <-.
+  apply (unwatch_inv s name fd w _ I Hb); simpl; [reflexivity|apply delete_idemp|reflexivity].
+Qed.
+
+(* the same when EV_DELETE failed: nothing about the registration is needed *)
+Lemma prim_unlist s name fd w : KqInv s →
+  tb_byPath (T s) name = Some (fd, w) →
+  KqInv (set_T (λ _, (tb_remove (T s) fd name).1) (set_K (λ k, sys_close k fd) s)).
+Proof. intros I Hb. apply (unwatch_inv s name fd w _ I Hb); reflexivity. Qed.
+
 Theorem prim_inv U s s' : KqInv s → prim U s s' → KqInv s'.
 Proof.
   intros I H. destruct H.
@@ -588,6 +610,7 @@ Proof.
   - eapply prim_rereg; eauto.
   - apply prim_regfail; assumption.
   - eapply prim_unwatch; eauto.
+  - eapply prim_unlist; eauto.
   - apply prim_kern; assumption.
   - apply prim_exit, I.
 Qed.
@@ -632,6 +655,7 @@ Proof.
   - split; [|exact Hn]. destruct (decide (fd0 = fd)) as [->|Hd]; [apply lookup_delete|rewrite lookup_delete_ne by done; exact Hl].
   - unfold sys_evdelete in H0. destruct (k_regs (K s) !! fd0); [|discriminate]. injection H0 as <-. simpl.
     split; [|exact Hn]. destruct (decide (fd0 = fd)) as [->|Hd]; [apply lookup_delete|rewrite lookup_delete_ne by done; exact Hl].
+  - split; [|exact Hn]. destruct (decide (fd0 = fd)) as [->|Hd]; [apply lookup_delete|rewrite lookup_delete_ne by done; exact Hl].
   - rewrite H, H1. auto.
 Qed.
 
@@ -647,11 +671,30 @@ Proof.
   assert (Hr : is_Some (k_regs (K s) !! fd)) by (apply (inv_regs _ I G); eauto).
   assert (Hlt : fd < k_next (K s)) by (apply (inv_next _ I), (inv_led _ I); eauto).
   cbn [remove_core]. rewrite Hb.
-  unfold sys_evdelete. destruct Hr as [x Hx]. rewrite Hx.
+  unfold evdelete_err, sys_evdelete. destruct Hr as [x Hx]. rewrite Hx.
   destruct (tb_remove (T s) fd (clean name)) as [t1 isd] eqn:Et.
   set (s1 := set_T (λ _ : tables, t1) (set_K (λ _ : kernel, sys_close (k_set_pend (drop_pend fd) (k_set_regs (delete fd) (K s))) fd) s)).
   assert (Hd : fd_dead fd s1) by (split; simpl; [apply lookup_delete|exact Hlt]).
   destruct (uw && isd); cbn [fst snd]; [|auto]. split; [|reflexivity].
+  revert Hd. generalize s1. induction (tb_watchesInDir t1 (clean name)) as [|ch r IHr]; intros s0 Hd; [exact Hd|].
+  cbn [fold_left]. apply IHr. eapply (steps_dead (λ _, True)); [apply remove_core_steps|exact Hd].
+Qed.
+
+(* … and it does so whether or not EV_DELETE succeeds (no premise on [gone]): the early return on the EV_DELETE error
+   is gone from the code, only the result differs *)
+Lemma remove_core_closes_any fuel s name uw fd w :
+  KqInv s → tb_byPath (T s) (clean name) = Some (fd, w) → fd_dead fd (remove_core (S fuel) s name uw).1.
+Proof.
+  intros I Hb. destruct (byPath_some _ _ _ _ I Hb) as (Hp & Hw & Hn & Hz).
+  assert (Hlt : fd < k_next (K s)) by (apply (inv_next _ I), (inv_led _ I); eauto).
+  cbn [remove_core]. rewrite Hb.
+  destruct (evdelete_err (K s) fd) as [k1 res] eqn:Ee.
+  assert (Hk : k_next k1 = k_next (K s)).
+  { unfold evdelete_err, sys_evdelete in Ee. destruct (k_regs (K s) !! fd); injection Ee as <- _; reflexivity. }
+  destruct (tb_remove (T s) fd (clean name)) as [t1 isd] eqn:Et.
+  set (s1 := set_T (λ _ : tables, t1) (set_K (λ _ : kernel, sys_close k1 fd) s)).
+  assert (Hd : fd_dead fd s1) by (split; simpl; [apply lookup_delete|rewrite Hk; exact Hlt]).
+  destruct (uw && isd); cbn [fst]; [|exact Hd].
   revert Hd. generalize s1. induction (tb_watchesInDir t1 (clean name)) as [|ch r IHr]; intros s0 Hd; [exact Hd|].
   cbn [fold_left]. apply IHr. eapply (steps_dead (λ _, True)); [apply remove_core_steps|exact Hd].
 Qed.
@@ -724,6 +767,7 @@ Proof.
   - rewrite H. auto.
   - unfold tb_updateDirFlags in H0. destruct (t_path (T s) !! p); [|discriminate]. injection H0 as <-. simpl. auto.
   - intros Hq. apply HU. set_solver.
+  - intros Hq. apply HU. set_solver.
 Qed.
 
 Lemma steps_user_only (U : string → Prop) s s' : steps U s s' → (∀ q, q ∈ t_user (T s) → U q) → ∀ q, q ∈ t_user (T s') → U q.
@@ -788,6 +832,8 @@ Proof.
     + rewrite lookup_insert_ne by done. apply Hnc.
   - intros fd0 w0. destruct (decide (fd = fd0)) as [->|Hd]; [rewrite lookup_delete; discriminate|].
     rewrite lookup_delete_ne by done. apply Hnc.
+  - intros fd0 w0. destruct (decide (fd = fd0)) as [->|Hd]; [rewrite lookup_delete; discriminate|].
+    rewrite lookup_delete_ne by done. apply Hnc.
 Qed.
 
 Lemma steps_names_clean U s s' : steps U s s' → names_clean s → names_clean s'.
@@ -829,6 +875,7 @@ Proof.
   - match goal with Hr : sys_register _ _ _ = _ |- _ => unfold sys_register in Hr; destruct (k_led (K s) !! fd0); [|discriminate]; injection Hr as <- end. simpl. auto.
   - match goal with He : sys_evdelete _ _ = _ |- _ => unfold sys_evdelete in He; destruct (k_regs (K s) !! fd0); [|discriminate]; injection He as <- end. simpl.
     split; [exact Hn|]. intros w0. destruct (decide (fd0 = fd)) as [->|Hd]; [rewrite lookup_delete; discriminate|rewrite lookup_delete_ne by done; auto].
+  - split; [exact Hn|]. intros w0. destruct (decide (fd0 = fd)) as [->|Hd]; [rewrite lookup_delete; discriminate|rewrite lookup_delete_ne by done; auto].
   - match goal with Hx : k_next _ = k_next _ |- _ => rewrite Hx end. auto.
 Qed.
 
@@ -857,7 +904,7 @@ Lemma remove_core_gone fuel : ∀ s name uw, gone (remove_core fuel s name uw).1
 Proof.
   induction fuel as [|fuel IH]; intros s name uw; [reflexivity|]. cbn [remove_core].
   destruct (tb_byPath (T s) (clean name)) as [[fd w]|]; [|reflexivity].
-  destruct (sys_evdelete (K s) fd) as [k1|]; [|reflexivity].
+  destruct (evdelete_err (K s) fd) as [k1 res].
   destruct (tb_remove (T s) fd (clean name)) as [t1 isd].
   destruct (uw && isd); [|reflexivity]. cbn [fst].
   set (s1 := set_T (λ _ : tables, t1) (set_K (λ _ : kernel, sys_close k1 fd) s)).
@@ -956,6 +1003,7 @@ Proof.
   - match goal with Hr : sys_register _ _ _ = _ |- _ => unfold sys_register in Hr; rewrite L, lookup_empty in Hr; discriminate end.
   - rewrite L, R, !delete_empty. auto.
   - match goal with He : sys_evdelete _ _ = _ |- _ => unfold sys_evdelete in He; rewrite R, lookup_empty in He; discriminate end.
+  - rewrite L, R, !delete_empty. auto.
   - match goal with HA : k_led _ = k_led _, HB : k_regs _ = k_regs _ |- _ => rewrite HA, HB end. auto.
 Qed.
 
@@ -1025,6 +1073,7 @@ Proof.
   - match goal with HT : T _ = T _ |- _ => rewrite HT end. auto.
   - match goal with Hu : tb_updateDirFlags _ _ _ = Some _ |- _ => unfold tb_updateDirFlags in Hu; destruct (t_path (T s) !! p); [|discriminate]; injection Hu as <- end. auto.
   - set_solver.
+  - set_solver.
 Qed.
 Lemma steps_not_user (U : string → Prop) q s s' : ¬ U q → steps U s s' → q ∉ t_user (T s) → q ∉ t_user (T s').
 Proof. intros HU H. induction H; [auto|]. intros Hq. apply IHrtc. eapply prim_not_user; eauto. Qed.
@@ -1038,18 +1087,15 @@ Proof.
   intros I C G Hb.
   assert (Hnot : clean name ∉ t_user (T (api_remove c s name).1)).
   { unfold api_remove. rewrite C. unfold rm_fuel. cbn [remove_core]. rewrite Hb.
-    destruct (sys_evdelete (K s) fd) as [k1|] eqn:Ee.
-    - destruct (tb_remove (T s) fd (clean name)) as [t1 isd] eqn:Et.
-      assert (Hq1 : clean name ∉ t_user t1) by (unfold tb_remove in Et; injection Et as <- _; simpl; set_solver).
-      set (s1 := set_T (λ _ : tables, t1) (set_K (λ _ : kernel, sys_close k1 fd) s)).
-      destruct (true && isd); cbn [fst]; [|exact Hq1].
-      assert (Hs : steps (λ _, False) s1 (fold_left (λ s0 child, (remove_core (size (t_wd (T s))) s0 child true).1) (tb_watchesInDir t1 (clean name)) s1)).
-      { generalize s1. induction (tb_watchesInDir t1 (clean name)) as [|ch r IHr]; intros s0; cbn [fold_left]; [apply steps_refl|].
-        eapply steps_trans; [apply remove_core_steps|apply IHr]. }
-      eapply (steps_not_user (λ _, False)); [tauto|exact Hs|exact Hq1].
-    - exfalso. destruct (byPath_some _ _ _ _ I Hb) as (_ & Hw & _ & _).
-      unfold sys_evdelete in Ee. destruct (k_regs (K s) !! fd) eqn:Er; [discriminate|].
-      assert (is_Some (k_regs (K s) !! fd)) as [? ?] by (apply (inv_regs _ I G); eauto). congruence. }
+    destruct (evdelete_err (K s) fd) as [k1 res].
+    destruct (tb_remove (T s) fd (clean name)) as [t1 isd] eqn:Et.
+    assert (Hq1 : clean name ∉ t_user t1) by (unfold tb_remove in Et; injection Et as <- _; simpl; set_solver).
+    set (s1 := set_T (λ _ : tables, t1) (set_K (λ _ : kernel, sys_close k1 fd) s)).
+    destruct (true && isd); cbn [fst]; [|exact Hq1].
+    assert (Hs : steps (λ _, False) s1 (fold_left (λ s0 child, (remove_core (size (t_wd (T s))) s0 child true).1) (tb_watchesInDir t1 (clean name)) s1)).
+    { generalize s1. induction (tb_watchesInDir t1 (clean name)) as [|ch r IHr]; intros s0; cbn [fold_left]; [apply steps_refl|].
+      eapply steps_trans; [apply remove_core_steps|apply IHr]. }
+    eapply (steps_not_user (λ _, False)); [tauto|exact Hs|exact Hq1]. }
   split; [exact Hnot|]. unfold api_list. destruct (closed (api_remove c s name).1); [unfold not; simpl; intros H; exact H|].
   intros Hin. apply in_sort_str in Hin. apply elem_of_list_In, elem_of_elements in Hin. contradiction.
 Qed.
